@@ -51,7 +51,7 @@ class FileManager:
             before_lines + note.to_string().split("\n") + zlines[end_idx:]
         )
         new_zcontents = "\n".join(new_zlines)
-        zpage.write_text(new_zcontents)
+        zpage.write_text(new_zcontents, errors="surrogateescape")
         return None
 
     def delete_note(self, note: Note) -> Optional[Error]:
@@ -77,7 +77,7 @@ class FileManager:
             end_idx += 1
         new_zlines = zlines[:start_idx] + zlines[end_idx:]
         new_zcontents = "\n".join(new_zlines)
-        zpage.write_text(new_zcontents)
+        zpage.write_text(new_zcontents, errors="surrogateescape")
         return None
 
 
